@@ -47,7 +47,10 @@ func (t *MemoryDevice) UpdateEmergency(_ context.Context, request *traits.Update
 			newt.LevelChangeTime = serverTimestamp()
 		}
 	}))
-	return update.(*traits.Emergency), err
+	if err != nil {
+		return nil, err
+	}
+	return update.(*traits.Emergency), nil
 }
 
 func (t *MemoryDevice) PullEmergency(request *traits.PullEmergencyRequest, server traits.EmergencyApi_PullEmergencyServer) error {
